@@ -132,7 +132,7 @@ class Frame:
         by `delegate_to_widget_mixin(attribute_name)`): the enclosing call is long over, so the variable's value is
         what the REAL function object's closure cell holds (CPython: `fn.__closure__[fn.__code__.co_freevars.index(name)]`).
         Only for methods reached through a real class (`defcls`) whose qualified name has a `<locals>` part; returns a
-        1-tuple (value,) or None.  Cross-check: tools/xc_truth.py."""
+        1-tuple (value,) or None.  Cross-check against CPython: static check `engine-rules-agree-with-cpython`, contracts/C19_gridflow.py."""
         f = self
         while f is not None and (f.fn is None or f.fn.defcls is None):
             f = f.parent
@@ -1450,7 +1450,7 @@ class Interp:
                 return self.truth(st, v.fields[v.base_list])
             # CPython: bool(obj) is obj.__bool__() if the class defines it, else len(obj) != 0 if the class defines
             # __len__ (an empty Pile / Columns / GridFlow is falsy), else True.  Only repository definitions are
-            # followed (cross-check: tools/xc_truth.py compares with bool() of real empty / non-empty containers).
+            # followed (cross-check against CPython: static check `engine-rules-agree-with-cpython`, contracts/C19_gridflow.py).
             for dunder in ("__bool__", "__len__"):
                 cls, ref = SRC.mro_lookup(v.cls, dunder) if isinstance(v.cls, type) else (None, None)
                 if cls is None or cls is object:
